@@ -1700,11 +1700,10 @@ func (w *vxC16World) burst(evs []vxC16Ev) error {
 		typ := "TOPOLOGY_CHANGE"
 		if e.Kind == "UP" || e.Kind == "DOWN" {
 			typ = "STATUS_CHANGE"
-			// every EVENT frame is handled in its own goroutine, so the order in which UP and DOWN for
-			// one address reach the debouncer is not the wire order: one status per address and burst
-			if prev, ok := status[ip]; ok && prev != e.Kind {
-				continue
-			} else if !ok {
+			// the frames of a burst reach the debouncer in wire order: the last status reported for an
+			// address is the one that counts (a first version of the driver handled every EVENT frame in a
+			// goroutine of its own, and UP, DOWN usually arrived as DOWN, UP)
+			if _, ok := status[ip]; !ok {
 				order = append(order, ip)
 			}
 			status[ip] = e.Kind
